@@ -3,6 +3,7 @@ import ParryModel.C19.Model
 import ParryModel.C19.DriverTopo
 import ParryModel.C19.DriverExt
 import ParryModel.C19.DriverAcc
+import ParryModel.C19.DriverHf2
 import Std.Data.HashMap
 /-! C19 protocol handlers. -/
 namespace C19
@@ -356,6 +357,8 @@ def handler (fn : String) : Option Handler :=
     | some h => some h
     | none => match Ext.handler fn with
       | some h => some h
-      | none => Acc.handler fn
+      | none => match Acc.handler fn with
+        | some h => some h
+        | none => Hf2.handler fn
 
 end C19
